@@ -321,7 +321,7 @@ def check_c07(tier, seed, replay=None):
     import demos as demos_mod, random, tempfile, shutil, dimacs_gen
     v = Verdict('C07', tier, seed)
     bins = build_many([('h_exact', 'asan'), ('h_approx', 'asan'), ('h_parts', 'asan'), ('h_vec', 'asan'), ('h_dimacs', 'asan'), ('h_sched', 'asan'), ('h_sched', 'tsan'),
-                       ('h_vec', 'valgrind'), ('h_dimacs', 'valgrind'), ('h_parts', 'valgrind'), ('h_exact', 'valgrind')])
+                       ('h_mt', 'tsan'), ('h_mt', 'plain'), ('h_vec', 'valgrind'), ('h_dimacs', 'valgrind'), ('h_parts', 'valgrind'), ('h_exact', 'valgrind')])
     sd = seed + 7000003
     plan = [  # (harness, mode, quick cases, thorough cases, opts)
         ('h_exact', 'c01', 250, 4000, dict(max_n=T(tier, 24, 40), large=0)),
@@ -354,6 +354,14 @@ def check_c07(tier, seed, replay=None):
     v.absorb(at, functional=False)
     per['h_sched:c03t(tsan)'] = dict(cases=at.evaluations, sanitizer_reports=len(at.sanitizer_reports), crashes=len(at.crashes))
     total.evaluations += at.evaluations
+    # concurrent CALLERS: 2-4 threads run the sequential entry points and the component builders at the same time on one const graph;
+    # ThreadSanitizer watches for hidden shared state, and every thread's results are compared with a single-threaded run
+    for fl, q, t, envx in (('tsan', 60, 3000, TSAN_ENV), ('plain', 400, 30000, None)):
+        am_ = run_cases(bins[('h_mt', fl)], 'c07mt', sd + 11, T(tier, q, t), opts=dict(max_n=T(tier, 16, 22)), env=envx, timeout=3600, source='h_mt(%s):c07mt' % fl, chunk=T(tier, 10, 50))
+        v.absorb(am_, functional=True)
+        per['h_mt:c07mt(%s)' % fl] = dict(cases=am_.evaluations, sanitizer_reports=len(am_.sanitizer_reports), crashes=len(am_.crashes), concurrent_library_calls=am_.summary.get('concurrent_library_calls', 0))
+        total.evaluations += am_.evaluations; total.hashes |= {('mt:%s' % x) for x in am_.hashes}; total.all_hashes |= {('mt:%s' % x) for x in am_.all_hashes}
+        total.tags.update({k: n for k, n in am_.tags.items() if k.startswith('threads=')})
     # the MPI entry points under ASan+UBSan inside real mpiexec jobs (leak detection off: OpenMPI's own start-up allocations are not parmcb's)
     import mpirun
     bm = lib.build('h_mpi', 'mpiasan')
@@ -456,7 +464,7 @@ def main():
 ALL_BUILDS = [('h_exact', 'plain'), ('h_exact', 'asan'), ('h_approx', 'plain'), ('h_approx', 'asan'), ('h_parts', 'plain'), ('h_parts', 'asan'),
               ('h_vec', 'plain'), ('h_vec', 'asan'), ('h_dimacs', 'plain'), ('h_dimacs', 'asan'),
               ('h_sched', 'shim'), ('h_sched', 'tsan'), ('h_sched', 'plain'), ('h_mpi', 'mpi'), ('h_knob', 'plain'), ('h_knob', 'shim'), ('h_sched', 'asan'),
-              ('h_vec', 'valgrind'), ('h_dimacs', 'valgrind'), ('h_parts', 'valgrind'), ('h_exact', 'valgrind'), ('h_mpi', 'mpiasan')]
+              ('h_vec', 'valgrind'), ('h_dimacs', 'valgrind'), ('h_parts', 'valgrind'), ('h_exact', 'valgrind'), ('h_mpi', 'mpiasan'), ('h_mt', 'tsan'), ('h_mt', 'plain')]
 
 
 def build_all():
